@@ -125,6 +125,7 @@ class PulledBack(Spacetime):
             p = np.array([-u / den, (1 + u) / den, u * (1 + u) / den])
             p = p[rng.permutation(3)]
         self.p = p
+        self.H = 0.3          # de Sitter in flat slicing: Lambda = 3 H^2
         self.opts = dict(seed=int(seed), base=base, eps=eps, kmax=kmax,
                          period=period,
                          p=None if p is None else p.round(6).tolist())
@@ -145,7 +146,11 @@ class PulledBack(Spacetime):
             tj = self.xi[0].jet(X)
             tj = J2(tj.v + Tcoord + self.t_offset, tj.d.copy(), tj.dd)
             tj.d[0] = tj.d[0] + 1.0
-            diag = [J2.const(-1.0, shape)] + [tj.power(2 * pi) for pi in self.p]
+            if self.base == "desitter":
+                a2 = (tj * (2.0 * self.H)).exp()
+                diag = [J2.const(-1.0, shape), a2, a2, a2]
+            else:
+                diag = [J2.const(-1.0, shape)] + [tj.power(2 * pi) for pi in self.p]
         g = [[None] * 4 for _ in range(4)]
         for a in range(4):
             for b in range(a, 4):
